@@ -5,5 +5,5 @@ From PV Require Import CApi.Wrapper Gen.CApiTable.
 Extraction Language OCaml.
 Extraction "../ocaml/gen/capi_model.ml"
   table helper_table handler_code lookup_helper expect diagnose wf store_last call valid_env
-  run_helper copy_vector_to_array copy_string_to_array move_vector_to_array_of_c_ptrs
+  run_helper spec_helper copy_vector_to_array copy_string_to_array move_vector_to_array_of_c_ptrs
   required_all init_state step run chars N.add N.of_nat.
